@@ -431,16 +431,60 @@ impl<'r> VGen<'r> {
                     None => self.leaf(t, n, scope),
                 }
             }
-            17 => match self.call(Some(&G::N(t, n)), d, scope) {
-                Some(c) => c,
-                None => self.leaf(t, n, scope),
-            },
+            17 => {
+                if self.rng.chance(1, 2) {
+                    if let Some(b) = self.builtin(t, n, d, scope) {
+                        return b;
+                    }
+                }
+                match self.call(Some(&G::N(t, n)), d, scope) {
+                    Some(c) => c,
+                    None => self.leaf(t, n, scope),
+                }
+            }
             18 => {
                 let (ot, on) = (self.kind(true), 1 + self.rng.below(4) as usize);
                 format!("({}, {})", self.exact(ot, on, d, scope), self.exact(t, n, d, scope))
             }
             _ => self.leaf(t, n, scope),
         }
+    }
+
+    /// a call of a pure built-in with result type (t, n): component-wise math, reductions, predicates, selection
+    fn builtin(&mut self, t: T, n: usize, d: u32, scope: &[VarInfo]) -> Option<String> {
+        let m = 2 + self.rng.below(3) as usize;
+        let which = self.rng.below(6);
+        Some(match (t, which) {
+            (T::Float, 0) => format!("{}({})", self.rng.pick(&["abs", "sqrt", "sin", "cos", "floor", "ceil", "frac", "exp2", "log2", "saturate", "rsqrt", "trunc", "round", "rcp"]), self.exact(t, n, d, scope)),
+            (T::Float, 1) => format!("{}({}, {})", self.rng.pick(&["min", "max", "pow", "step", "fmod", "atan2"]), self.exact(t, n, d, scope), self.conv(t, n, d, scope)),
+            (T::Float, 2) => format!("{}({}, {}, {})", self.rng.pick(&["clamp", "lerp", "smoothstep"]), self.exact(t, n, d, scope), self.conv(t, n, d, scope), self.conv(t, n, d, scope)),
+            (T::Float, 3) if n == 1 => match self.rng.below(3) {
+                0 => format!("dot({}, {})", self.exact_nonliteral(t, m, d, scope), self.exact_nonliteral(t, m, d, scope)),
+                1 => format!("length({})", self.exact_nonliteral(t, m, d, scope)),
+                _ => format!("distance({}, {})", self.exact_nonliteral(t, m, d, scope), self.exact_nonliteral(t, m, d, scope)),
+            },
+            (T::Float, 3) if n == 3 => format!("cross({}, {})", self.exact_nonliteral(t, 3, d, scope), self.exact_nonliteral(t, 3, d, scope)),
+            (T::Float, 3) => format!("{}({})", self.rng.pick(&["normalize", "saturate"]), self.exact_nonliteral(t, n, d, scope)),
+            (T::Float, 4) => {
+                let k = if self.rng.chance(1, 2) { T::Int } else { T::Uint };
+                format!("asfloat({})", self.exact_nonliteral(k, n, d, scope))
+            }
+            (T::Int, 0) => format!("abs({})", self.exact(t, n, d, scope)),
+            (T::Int, 1) => format!("sign({})", self.exact_nonliteral(T::Float, n, d, scope)),
+            (T::Int, 2) if n == 1 => format!("dot({}, {})", self.exact_nonliteral(t, m, d, scope), self.exact_nonliteral(t, m, d, scope)),
+            (T::Int, 3) => format!("asint({})", self.exact_nonliteral(T::Float, n, d, scope)),
+            (T::Int, _) | (T::Uint, 0) | (T::Uint, 1) => match self.rng.below(2) {
+                0 => format!("{}({}, {})", self.rng.pick(&["min", "max"]), self.exact(t, n, d, scope), self.exact(t, n, d, scope)),
+                _ => format!("clamp({}, {}, {})", self.exact(t, n, d, scope), self.exact(t, n, d, scope), self.exact(t, n, d, scope)),
+            },
+            (T::Uint, 2) => format!("{}({})", self.rng.pick(&["countbits", "reversebits", "firstbitlow", "firstbithigh"]), self.exact_nonliteral(t, n, d, scope)),
+            (T::Uint, 3) => format!("asuint({})", self.exact_nonliteral(T::Float, n, d, scope)),
+            (T::Bool, 0) | (T::Bool, 1) if n == 1 => format!("{}({})", self.rng.pick(&["any", "all"]), self.exact_nonliteral(T::Bool, m, d, scope)),
+            (T::Bool, 2) => format!("{}({})", self.rng.pick(&["isnan", "isinf", "isfinite"]), self.exact_nonliteral(T::Float, n, d, scope)),
+            (T::Bool, 3) if n > 1 => format!("{}({}, {})", self.rng.pick(&["and", "or"]), self.exact_nonliteral(T::Bool, n, d, scope), self.exact_nonliteral(T::Bool, n, d, scope)),
+            (_, 5) if n > 1 => format!("select({}, {}, {})", self.exact_nonliteral(T::Bool, n, d, scope), self.exact_nonliteral(t, n, d, scope), self.exact_nonliteral(t, n, d, scope)),
+            _ => return None,
+        })
     }
 
     /// exact, but never a bare literal (a literal next to a vector of a lower kind makes the type checker compute in a
